@@ -768,6 +768,14 @@ def run(run: Run):
     run.guard('C05.R11', check_rejections_propagate, run, 'C05.R11', src, _gcg(src),
               ['AstBuilder.parse', 'CompositeBaseToken.get', 'UndefinedToken.get'], 'a formula that does not fit the grammar')
     run.floor('C05.R11', 50)
+    from .common import check_plumbing
+    from ..runtime import get_runtime
+    from . import c11 as _c11, c12 as _c12, c13 as _c13, c14 as _c14, c15 as _c15, c16 as _c16, c17 as _c17
+    run.rule('C05.R12', 'the argument lists each supported function accepts are the ones Excel defines (the confirmed reference of every '
+                        'function: arity, optional arguments, what each argument is printed as)')
+    run.guard('C05.R12', check_plumbing, run, 'C05.R12', src, em, get_runtime(src),
+              _c11.FUNCS + _c12.FUNCS + _c13.FUNCS + _c14.FUNCS + _c15.FUNCS + _c16.FUNCS + _c17.FUNCS)
+    run.floor('C05.R12', 40)
     run.floor('C05.R10', 2)
     run.floor('C05.R9', 20)
     run.floor('C05.R8', 8)
